@@ -77,6 +77,7 @@ type FuncSpec struct {
 	NoPanicT []string
 	Inline   string // "", "never", "always"
 	IntMode  string // "" (64-bit vectors) or "math"
+	Reveal   []string
 	ModAll   bool   // modifies everything
 	ModNone  bool
 	ModComps []string // whole components ("T.f")
@@ -103,9 +104,10 @@ type PkgSpec struct {
 	Guarded  map[string]string // component -> mutex expr
 	GenFiles  map[string][]byte
 	InlineExt []string
+	Opaque    []string
 }
 
-var kwRe = regexp.MustCompile(`^(requires|ensures|returns|observe|ghostset|modifies|cover|loop|results|nopanic|inline|unroll|atcall|handler|intmode)\b`)
+var kwRe = regexp.MustCompile(`^(requires|ensures|returns|observe|ghostset|modifies|cover|loop|results|nopanic|inline|unroll|atcall|handler|intmode|reveal)\b`)
 
 // readSpecLines extracts the //@ lines of a file ("\" continues a line).
 func readSpecLines(path string) ([]string, []int, error) {
@@ -270,9 +272,12 @@ func parseSpecFile(path string, ps *PkgSpec, trustedFile bool) error {
 			sig := strings.TrimPrefix(t, "ghost func ")
 			ps.RawGo = append(ps.RawGo, "func "+sig+" { panic(\"ghost\") }")
 			cur = nil
-		case strings.HasPrefix(t, "pure func "):
-			// pure func NAME(params) RET = EXPR
-			rest := strings.TrimPrefix(t, "pure func ")
+		case strings.HasPrefix(t, "pure func ") || strings.HasPrefix(t, "opaque func "):
+			// pure func NAME(params) RET = EXPR      (opaque: an uninterpreted symbol unless a contract says "reveal NAME")
+			rest := strings.TrimPrefix(strings.TrimPrefix(t, "pure func "), "opaque func ")
+			if strings.HasPrefix(t, "opaque ") {
+				ps.Opaque = append(ps.Opaque, rest[:strings.Index(rest, "(")])
+			}
 			eq := topLevelIndex(rest, " = ")
 			if eq < 0 {
 				return fmt.Errorf("%s:%d: pure func needs ' = expr'", path, ln)
@@ -332,6 +337,8 @@ func parseSpecFile(path string, ps *PkgSpec, trustedFile bool) error {
 				cur.Inline = rest
 			case "intmode":
 				cur.IntMode = rest
+			case "reveal":
+				cur.Reveal = append(cur.Reveal, strings.Fields(rest)...)
 			case "handler":
 				cur.Handler = rest
 			case "unroll":
@@ -779,6 +786,7 @@ func (ps *PkgSpec) generate(trustedDir string) error {
 		ps.Funcs = append(ps.Funcs, tp.Funcs...)
 		ps.Stable = append(ps.Stable, tp.Stable...)
 		ps.InlineExt = append(ps.InlineExt, tp.InlineExt...)
+		ps.Opaque = append(ps.Opaque, tp.Opaque...)
 	}
 	var mainBody strings.Builder
 	mainBody.WriteString(preludeGo)
